@@ -29,7 +29,10 @@ class KNp:
         self.linalg = self
 
     def __getattr__(self, name):
-        raise Concretization("np.%s is not available in the W domain" % name)
+        # any other numpy function of a symbolic matrix is an uninterpreted value: arithmetic absorbs, comparisons fork
+        def f(*a, **k):
+            return USc("np.%s(...)" % name)
+        return f
 
     def eye(self, n, *a, **k):
         if not isinstance(n, Dim):
@@ -75,9 +78,25 @@ class USc:
     def __init__(self, name):
         self.name = name
 
+    __array_ufunc__ = None
+
     def _b(self, o):
         return USc("(%s op %s)" % (self.name, getattr(o, "name", o)))
-    __mul__ = __rmul__ = __add__ = __radd__ = __sub__ = __rsub__ = __truediv__ = _b
+    __mul__ = __rmul__ = __add__ = __radd__ = __sub__ = __rsub__ = __truediv__ = __rtruediv__ = __pow__ = _b
+
+    def __getattr__(self, name):
+        if name.startswith("__"):
+            raise AttributeError(name)
+        return lambda *a, **k: USc("%s.%s()" % (self.name, name))
+
+    def __getitem__(self, k):
+        return USc("%s[...]" % self.name)
+
+    def __neg__(self):
+        return USc("-" + self.name)
+
+    def __bool__(self):
+        return decide(("truth", self.name))
 
     def _c(self, o):
         return decide(("cmp", self.name, str(getattr(o, "name", o))))
